@@ -331,4 +331,35 @@ def c01Model (p : PkgCase) : Nat × Bool × Bool :=
   else (0, !p.tablesOf.isEmpty,
         (!p.hasClash || p.tablesOf.isEmpty) && p.tablesOf.all (fun e => compiles p.bit e.1 (declared e.1 p.blocks) e.2))
 
+/-! ## the property's answer to one call of a history, from the declaration alone
+
+The specification is a function of the declaration and the call: no history appears in it. -/
+
+def specStringAny (T : Name) (k : Kind) (bit : Bool) (decl : List Const) (x : Int) : Str :=
+  if bit then Bit.specGeneral k.signed (Bit.table (w := k.bits) T (specSorted decl)) (BitVec.ofInt k.bits x)
+  else specString T decl x
+
+def specCall (T : Name) (k : Kind) (bit : Bool) (decl : List Const) : Call → Res
+  | .string x => .str (specStringAny T k bit decl x)
+  | .isValid x => .bool (specValid decl x)
+  | .values => .ints (specValues decl)
+  | .strings => .names (specStrings T decl)
+  | .valueMap => .vmap ((specSorted decl).map (fun c => (trim T c.name, c.val)))
+  | .stringMap => .smap ((specSorted decl).map (fun c => (c.val, trim T c.name)))
+  | .parseEnum s => .parsed (specParse T decl s)
+  | .tryParse s t => .tried (specDecode T decl (some s) t)
+  | .isEnum _ v => .bool (specIsEnum decl v)
+  | .unmarshalJSON d t => .decoded (specDecode T decl d.asName t)
+  | .unmarshalText s t => .decoded (specDecode T decl (some s) t)
+  | .scan d t => .decoded (specDecode T decl d.asName t)
+  | .encode x => .str (specStringAny T k bit decl x)
+  | .has x f => .bool (Bit.specHas (BitVec.ofInt k.bits x) (BitVec.ofInt k.bits f))
+  | .add x f => .int (Bit.decOf k.signed (Bit.specAdd (BitVec.ofInt k.bits x) (BitVec.ofInt k.bits f)))
+  | .remove x f => .int (Bit.decOf k.signed (Bit.specRemove (BitVec.ofInt k.bits x) (BitVec.ofInt k.bits f)))
+
+/-- an IsEnum probe is a value of its own integer type (every other call is unconstrained) -/
+def Call.ok : Call → Bool
+  | .isEnum kV v => decide (0 < kV.bits) && kV.has v
+  | _ => true
+
 end ShootVerif.Enum
